@@ -21,6 +21,9 @@ def pkg_of(rel):
     return "./" + d if d else "."
 
 
+SURV_ONLY = False
+
+
 def run_one(m, notests):
     orig = "/repo/" + m["file"]
     r = subprocess.run(f"/verif/bin/kcheck -repo /repo -overlay {orig}={m['path']} -prop all -evidence /tmp/kmut_ev/{m['id']} -known /verif/known_findings.json",
@@ -39,7 +42,7 @@ def run_one(m, notests):
             first = lines[i + 1].strip()[:220]
             break
     res["first"] = first
-    if not notests:
+    if not notests and not (SURV_ONLY and fired):
         ov = f"/tmp/kmut_ev/{m['id']}.overlay.json"
         os.makedirs("/tmp/kmut_ev", exist_ok=True)
         json.dump({"Replace": {orig: m["path"]}}, open(ov, "w"))
@@ -64,7 +67,10 @@ def main():
     ap.add_argument("--notests", action="store_true")
     ap.add_argument("--files", default="")
     ap.add_argument("--out", default="/tmp/kmut_result.json")
+    ap.add_argument("--tests-for-survivors", action="store_true", help="run the existing tests only for mutants no check reports")
     a = ap.parse_args()
+    global SURV_ONLY
+    SURV_ONLY = a.tests_for_survivors
     ms = json.load(open(a.dir + "/index.json"))
     if a.files:
         ms = [m for m in ms if a.files in m["file"]]
@@ -76,7 +82,7 @@ def main():
     print("mutants:", len(results), dict(c))
     valid = [r for r in results if r["class"] != "invalid"]
     if not a.notests:
-        tp = [r for r in valid if r.get("tests") in ("pass", "none")]
+        tp = [r for r in valid if r.get("tests") in ("pass", "none") or "tests" not in r]
         print("valid:", len(valid), " pass-or-no existing tests:", len(tp), " of those killed by kcheck:", sum(1 for r in tp if r["class"] == "killed"),
               " survive both:", sum(1 for r in tp if r["class"] == "survived"))
     byfile = collections.defaultdict(lambda: [0, 0])
